@@ -147,7 +147,8 @@ class LogDeque(collections.deque):
         raw = self.run.raw()            # the raw socket of the current connection, also after it was closed
         mid_packet = bool(head and len(self) and (self[0]["pos"] > 0 or
                                                   (isinstance(sock, mqtt._WebsocketWrapper) and len(sock._sendbuffer) > 0)))
-        self.rec.add("append", pkt, in_cb, raw.calls if raw is not None else 0, head, len(self), mid_packet)
+        connq = bool(head or getattr(c, "_connect_queued", True))   # the flag as _packet_queue will see it
+        self.rec.add("append", pkt, in_cb, raw.calls if raw is not None else 0, head, len(self), mid_packet, connq)
 
     def append(self, pkt):
         if pkt.get("pos", 0) == 0 and not any(pkt is q for q in self.known):
@@ -501,7 +502,7 @@ def execute(case):
                         conn.skip_model = True      # queued from on_publish while _packet_write runs: oracle only
                     cur_seg = {"enq": ent, "events": [], "calls": e[3]}
                     segs.append(cur_seg)
-                    absorb = (not case.get("ext")) and not e[2]
+                    absorb = (not case.get("ext")) and not e[2] and e[7]
                 elif e[0] == "lw":
                     depth += 1
                     if absorb:
@@ -572,6 +573,7 @@ def execute(case):
             # --- state for the model comparison
             if conn.mobs and segs:
                 st = {"sock": c._sock is not None, "regw": bool(c._registered_write), "want": bool(c.want_write()),
+                      "connq": bool(getattr(c, "_connect_queued", True)),
                       "q": [(conn.by_dict[id(p)]["seq"] if id(p) in conn.by_dict else -1, p["pos"], p["to_process"]) for p in c._out_packet]}
                 if ws and c._sock is not None:
                     st["ws"] = (len(c._sock._sendbuffer), c._sock._requested_size, proxy.used - conn.key_base)
@@ -640,11 +642,11 @@ def parse_model(out, ws):
             ev.append(({5: "regw", 6: "unregw", 7: "cbdisc", 8: "sockclose"}[t],))
             i += 1
         elif t == 9:
-            rc, sock, regw, want, nq = out[i + 1:i + 6]
-            i += 6
+            rc, sock, regw, want, connq, nq = out[i + 1:i + 7]
+            i += 7
             q = [tuple(out[i + 3 * k:i + 3 * k + 3]) for k in range(nq)]
             i += 3 * nq
-            st = {"sock": bool(sock), "regw": bool(regw), "want": bool(want), "q": q}
+            st = {"sock": bool(sock), "regw": bool(regw), "want": bool(want), "connq": bool(connq), "q": q}
             if ws:
                 st["ws"] = tuple(out[i:i + 3])
                 i += 3
@@ -901,7 +903,10 @@ def gen_exhaustive_raw(stalls):
     for second, (_, blen) in SECOND.items():
         for sched in schedules([5, blen], stalls, True):
             nw = sum(1 for k in sched if k <= 0) + 2
+            two = sum(1 for k in sched if k in (0, -1)) >= 2
             for ext in (True, False):
+                if two and second == "pub6" and not ext:
+                    continue        # 5+6 bytes with two stalls: external-loop mode only (62720 schedules)
                 yield small_case("raw", ext, second, sched, nw)
 
 
@@ -925,8 +930,8 @@ def frame_len(n):
 
 def gen_exhaustive_ws(thorough):
     """WebSocket: one 2-byte packet (8-byte frame) with every split and up to 1 (quick) / 2 (thorough) stalls;
-    one 5-byte QoS 0 PUBLISH (11-byte frame) with every split, no stalls, plus OSError; thorough: PUBLISH + DISCONNECT
-    (11 + 8 bytes) with every split"""
+    one 5-byte QoS 0 PUBLISH (11-byte frame) with every split, no stalls, plus OSError; thorough: PINGREQ + DISCONNECT
+    (8 + 8 bytes) with every split"""
     for sched in schedules([8], 2 if thorough else 1, True):
         nw = len(sched) + 2
         for ext in (True, False):
@@ -934,8 +939,8 @@ def gen_exhaustive_ws(thorough):
     for sched in schedules([11], 0, True):
         yield small_case("ws", len(sched) % 2 == 0, None, sched, len(sched) + 2)
     if thorough:
-        for sched in schedules([11, 8], 0, False):
-            yield small_case("ws", len(sched) % 2 == 1, "disc", sched, len(sched) + 2)
+        for sched in schedules([8, 8], 0, False):       # PINGREQ + DISCONNECT, every split of both frames
+            yield small_case("ws", len(sched) % 2 == 1, "disc", sched, len(sched) + 2, first={"op": "ping"})
 
 
 # ------------------------------------------------------------------------------------------ check entry points
